@@ -41,14 +41,21 @@ def judge(case, impl_res, ans):
     nts = [len(p['templates']) for p in P]
     choff = [sum(ncs[:k]) for k in range(len(P))]
     toff = [sum(nts[:k]) for k in range(len(P))]
-    if m['channel_offsets'] != choff:
-        return 'MACHINERY: Lean channel offsets differ from prefix sums (contradicts the theorem)'
+    # raw-data offsets (running max + 1) and index offsets (running channel count): equal for
+    # permutation maps (theorem chanOffsets_eq_prefix), different when a map has gaps
+    raw_off, off = [], 0
+    for p in P:
+        raw_off.append(off)
+        off = max(c + off for c in p['channel_map']) + 1
+    gapped = any(sorted(p['channel_map']) != list(range(len(p['channel_map']))) for p in P)
+    if m['channel_offsets'] != raw_off or m['channel_index_offsets'] != choff or (not gapped and raw_off != choff):
+        return 'MACHINERY: Lean channel offsets differ from their definitions (contradicts the theorems)'
     if 'raised' in impl_res:
         return 'SPEC: Merger.merge() raised %s (%s) at %s on an in-domain input' % (
             impl_res['raised'], impl_res['msg'], impl_res['where'])
     ok = impl_res['ok']
     # channels
-    exp_map = [c + choff[k] for k, p in enumerate(P) for c in p['channel_map']]
+    exp_map = [c + raw_off[k] for k, p in enumerate(P) for c in p['channel_map']]
     if ok['channel_map']['vals'] != exp_map or m['channel_map'] != exp_map:
         return 'SPEC: merged channel_map is not the per-probe maps shifted into contiguous blocks (got %s, expected %s)' % (
             ok['channel_map']['vals'], exp_map)
@@ -112,6 +119,8 @@ def tally(rep, case, impl_res, ans):
     P = case['probes']
     if len({len(p['channel_map']) for p in P}) > 1:
         rep.count('different_channel_counts')
+    if any(sorted(p['channel_map']) != list(range(len(p['channel_map']))) for p in P):
+        rep.count('channel_map_with_gaps')
     if len({len(p['templates']) for p in P}) > 1:
         rep.count('different_template_counts')
     for p in P:
@@ -162,4 +171,6 @@ def gen(tier, rng):
             kw['single_x'] = True
         if i % 10 == 3:
             kw['last_template_empty'] = True
+        if i % 5 == 1:
+            kw['gapped'] = True       # channel maps with holes (dead channels): raw offsets != index offsets
         yield dict(p=PID, **M.merge_case(rng, nprobes=[1, 2, 3, 4][i % 4] if i < 40 else None, **kw))
